@@ -244,10 +244,11 @@ pub fn main(args: &[String]) -> i32 {
                     }
                     steps.push(json!({"a": "client", "n": 2, "op": other, "v": "s", "f": "", "e": -1}));        // seq nf+1, held back
                     // two more field writes on node 1: the first ties with the other write on time, the second is newer
-                    steps.push(json!({"a": "client", "n": 1, "op": "hset", "v": "9", "f": "a", "e": -1}));      // seq nf+2
-                    steps.push(json!({"a": "client", "n": 1, "op": "hset", "v": "8", "f": "b", "e": -1}));      // seq nf+3
-                    steps.push(json!({"a": "deliver", "seq": nf + 2, "to": 2}));
-                    steps.push(json!({"a": "deliver", "seq": nf + 3, "to": 2}));
+                    // (node 2's clock is ahead by the deltas it received: several writes until node 1's stamp passes it)
+                    for (j, fld) in ["a", "b", "c", "d", "e"].iter().enumerate() {
+                        steps.push(json!({"a": "client", "n": 1, "op": "hset", "v": "9", "f": fld, "e": -1}));   // seq nf+2+j
+                        steps.push(json!({"a": "deliver", "seq": nf + 2 + j, "to": 2}));
+                    }
                     steps.push(json!({"a": "deliver", "seq": nf + 1, "to": 1}));
                     run_one(run, 2, steps, &mut out);
                 }
